@@ -4,7 +4,7 @@ import json, subprocess
 props=[json.loads(l) for l in open('/verif/properties.jsonl')]
 tab=json.load(open('/verif/tools/manifest_table.json'))
 hooks=subprocess.run(['git','-C','/repo','log','--format=%h %s'],capture_output=True,text=True).stdout.splitlines()
-hook_commits=[l.split()[0] for l in hooks if 'verif hook' in l]
+hook_commits=[l.split()[0] for l in hooks if 'verif hook' in l or l.split(' ',1)[1].startswith('verif contracts')]
 checks=[]; na=[]
 for p in props:
     i=p['id']
